@@ -136,7 +136,7 @@ func printResult(res *harnessResult) {
 		if seen[key] > 2 {
 			continue
 		}
-		fmt.Printf("  CANDIDATE %s label=%q known=%q msg=%s vec=%v\n", v.Kind, v.Label, v.KnownID, v.Msg, fmtVec(v.Vec))
+		fmt.Printf("  CANDIDATE %s label=%q known=%q msg=%s vec=%v decisions=%s\n", v.Kind, v.Label, v.KnownID, v.Msg, fmtVec(v.Vec), fmtDecisions(v.Decisions))
 	}
 	keys := make([]string, 0, len(seen))
 	for k := range seen {
@@ -193,4 +193,16 @@ func main() {
 		fmt.Fprintln(os.Stderr, "unknown command", os.Args[1])
 		os.Exit(2)
 	}
+}
+
+func fmtDecisions(ds []decision) string {
+	s := ""
+	for k, d := range ds {
+		if k > 80 {
+			s += "..."
+			break
+		}
+		s += fmt.Sprintf("%c%d ", d.Kind, d.Val)
+	}
+	return s
 }
